@@ -15,8 +15,9 @@ GUARD = 'PYSYNCOBJ_VERIF'
 
 # theorem files shared by several properties: the refinement of the L1 model to abstract Raft (log matching, leader
 # completeness, state-machine safety, committed entries never change) is an obligation of each of these
-SHARED_PROPS = {'C01': ['TierC', 'TierC2', 'TierC3', 'TierC4'], 'C03': ['TierC', 'TierC2', 'TierC3', 'TierC4'],
-                'C04': ['TierC', 'TierC2', 'TierC3', 'TierC4'], 'C09': ['TierC3', 'TierC4'], 'C11': ['TierC3']}
+SHARED_PROPS = {'C01': ['TierC', 'TierC2', 'TierC3', 'TierC4', 'TierC5'], 'C03': ['TierC', 'TierC2', 'TierC3', 'TierC4', 'TierC5'],
+                'C04': ['TierC', 'TierC2', 'TierC3', 'TierC4', 'TierC5'], 'C09': ['TierC3', 'TierC4', 'TierC5'], 'C11': ['TierC3'],
+                'C17': ['TierC5']}
 
 BASE_TRUSTED = [
     'Coq 8.16.1 kernel (coqc); vm_compute conversion is used to evaluate the model in the correspondence check, '
